@@ -671,3 +671,92 @@ package restful
 //@ callsite (*FilterChain).ProcessFilter once: calls() == old(calls()) && (originDecision(c, origin) ==> appendedOne(hdrOf(resp.ResponseWriter), "Access-Control-Allow-Origin", origin, old(hcount(hdrOf(resp.ResponseWriter), "Access-Control-Allow-Origin"))))
 // C09: a preflight from an allowed origin is answered by the filter alone
 //@ ensures preflight: originDecision(c, origin) && old(req.Request.Method) == "OPTIONS" && old(req.Request.Header.Get("Access-Control-Request-Method")) != "" ==> calls() == old(calls())
+
+// ---------------------------------------------------------------------------
+// registration state (C11, C12)
+
+//@ func ext:(*net/http.ServeMux).HandleFunc
+//@ props C11 C12
+//@ trusted model of net/http.ServeMux: registering a pattern twice panics, otherwise the pattern is added
+//@ requires self != nil && pattern != "" && handler != nil
+//@ requires new: !muxHas(self, pattern)
+//@ modifies ghost $g.muxpat
+//@ ensures added: forallStr(func(p string) bool { return muxHas(self, p) == (old(muxHas(self, p)) || p == pattern) })
+//@ nopanic
+
+//@ func ext:net/http.NewServeMux
+//@ props C11 C12
+//@ trusted model of net/http.ServeMux: a new ServeMux has no patterns
+//@ ensures result != nil && fresh(result) && forallStr(func(p string) bool { return !muxHas(result, p) })
+//@ modifies nothing
+//@ nopanic
+
+//@ func fixedPrefixPath
+//@ props C11
+//@ ensures result == fixedPrefixSpec(pathspec)
+//@ modifies nothing
+//@ nopanic
+
+//@ func (*WebService).RootPath
+//@ props C11
+//@ requires w != nil
+//@ ensures result == w.rootPath
+//@ modifies nothing
+//@ nopanic
+
+//@ func (*Container).addHandler$1
+//@ inline
+//@ loop 0 invariant none: forall(0, it_i, func(k int) bool { return !svcRegisters(registered[k], candidate) })
+
+//@ func (*Container).addHandler
+//@ props C11 C12
+//@ requires c != nil && service != nil && serveMux != nil && servicesNonNil(registered) && !rootSeen(registered, len(registered))
+//@ requires exact: muxExact(serveMux, registered)
+//@ modifies ghost $g.muxpat
+//@ ensures root: result == isRootSvc(service)
+//@ ensures patterns: forallStr(func(p string) bool { return muxHas(serveMux, p) == (old(muxHas(serveMux, p)) || svcRegisters(service, p)) })
+//@ nopanic
+
+//@ func (*Container).Add
+//@ props C11 C12
+//@ requires c != nil && service != nil && servicesLock(c) == 0 && len(service.rootPath) > 0
+//@ requires wf: wfRegistry(c)
+//@ requires distinct: rootsDistinctFrom(c.webServices, service)
+//@ modifies c.webServices, c.isRegisteredOnRoot, elems(c.webServices), ghost $g.muxpat
+//@ ensures wf-nonnil: c.ServeMux != nil && servicesNonNil(c.webServices)
+//@ ensures wf-root: c.isRegisteredOnRoot == rootSeen(c.webServices, len(c.webServices))
+//@ ensures wf-mux: muxExact(c.ServeMux, c.webServices)
+//@ ensures appended: len(c.webServices) == old(len(c.webServices)) + 1 && c.webServices[len(c.webServices)-1] == service && forall(0, old(len(c.webServices)), func(k int) bool { return c.webServices[k] == old(c.webServices[k]) })
+//@ ensures lock: servicesLock(c) == 0 && result == c
+//@ nopanic
+//@ opt opaque svcRegisters isRootSvc
+//@ loop 0 invariant distinct: forall(0, len(c.webServices), func(k int) bool { return c.webServices[k].rootPath != service.rootPath })
+
+//@ func (*WebService).Path
+//@ props C11
+//@ trusted not verified: the body compiles a regular expression (outside the subset); Add's contract excludes the only call that reaches it (empty root path)
+//@ requires w != nil
+//@ modifies w.rootPath, w.pathExpr
+//@ ensures result == w && (root == "" ==> w.rootPath == "/") && (root != "" ==> w.rootPath == root)
+
+//@ func (*Container).Remove
+//@ props C11 C12
+//@ requires c != nil && ws != nil && servicesLock(c) == 0
+//@ requires wf: wfRegistry(c)
+//@ modifies c.webServices, c.ServeMux, c.isRegisteredOnRoot, ghost $g.muxpat
+//@ ensures wf-nonnil: result == nil ==> c.ServeMux != nil && servicesNonNil(c.webServices)
+//@ ensures wf-root: result == nil ==> c.isRegisteredOnRoot == rootSeen(c.webServices, len(c.webServices))
+//@ ensures wf-mux: result == nil ==> muxExact(c.ServeMux, c.webServices)
+//@ ensures removed: result == nil ==> forall(0, len(c.webServices), func(k int) bool { return c.webServices[k].rootPath != ws.rootPath })
+//@ ensures kept: result == nil ==> forall(0, old(len(c.webServices)), func(j int) bool { return old(c.webServices[j]).rootPath != ws.rootPath ==> exists(0, len(c.webServices), func(k int) bool { return c.webServices[k] == old(c.webServices[j]) }) })
+//@ ensures refused: result != nil ==> same(c.webServices, old(c.webServices)) && c.ServeMux == old(c.ServeMux)
+//@ ensures lock: servicesLock(c) == 0
+//@ nopanic
+//@ opt opaque svcRegisters isRootSvc
+//@ loop 0 invariant new: fresh(newServices) && servicesNonNil(newServices) && newServeMux != nil && fresh(newServeMux)
+//@ loop 0 invariant old1: servicesNonNil(c.webServices)
+//@ loop 0 invariant old2: same(c.webServices, old(c.webServices))
+//@ loop 0 invariant root: newIsRegisteredOnRoot == rootSeen(newServices, len(newServices))
+//@ loop 0 invariant mux: muxExact(newServeMux, newServices)
+//@ loop 0 invariant removed: forall(0, len(newServices), func(k int) bool { return newServices[k].rootPath != ws.rootPath })
+//@ loop 0 invariant kept: forall(0, it_i, func(j int) bool { return c.webServices[j].rootPath != ws.rootPath ==> exists(0, len(newServices), func(k int) bool { return newServices[k] == c.webServices[j] }) })
